@@ -97,6 +97,101 @@ def close_pending_hook_failure(hook_name: str) -> dict:
         return {'hook': hook_name, 'error': f'{type(e).__name__}: {e}'}
 
 
+def stalled_subscriber_case(n_items: int, when: str) -> dict:
+    """A subscriber that started reading a topic and then stopped (its iterator is kept, not advanced), a large volume published on
+    that topic afterwards, then close() from another task — before or after the child has exited.  close() must return, the state be
+    'closed', the other subscribers terminate, and the stalled iterator terminate once it is advanced again."""
+    import asyncio
+    import datetime
+    from .. import fakes, loop as ctl
+    from nextline import events as E
+    from nextline.spawned import RunResult
+
+    async def main() -> dict:
+        sc = lifecycle.Scenario(0, 1, False, False)
+        await sc.setup()
+        nl = sc.nl
+        await sc.op('start')
+        got_stalled: list = []
+        got_reader: list = []
+        resume = asyncio.Event()
+        first = asyncio.Event()
+
+        async def stalled() -> None:
+            async for x in nl.subscribe_stdout():
+                got_stalled.append(x.text)
+                if len(got_stalled) == 1:
+                    first.set()
+                    await resume.wait()          # stops reading here; everything published meanwhile piles up for it
+
+        async def reader() -> None:
+            async for x in nl.subscribe_stdout():
+                got_reader.append(x.text)
+        ts, tr = asyncio.ensure_future(stalled()), asyncio.ensure_future(reader())
+        await sc.op('run')
+        now = datetime.datetime.utcnow
+        live = sc.world.live()
+        c = live[-1]
+        c.emit(E.OnStartTrace(started_at=now(), run_no=1, trace_no=1, thread_no=1, task_no=None))
+        c.emit(E.OnWriteStdout(written_at=now(), run_no=1, trace_no=1, text='0\n'))
+        await asyncio.wait_for(first.wait(), timeout=60)
+        for k in range(1, n_items):
+            c.emit(E.OnWriteStdout(written_at=now(), run_no=1, trace_no=1, text=f'{k}\n'))
+        await lifecycle.settle(n_items * 40 + 400)          # relayed and published: the backlog now sits in the stalled subscriber's queue
+        if when == 'after-exit':
+            c.exit(RunResult(ret=5), exitcode=0)
+            await lifecycle.settle(n_items * 40 + 400)
+
+        async def closer() -> None:
+            await nl.close()
+        tc = asyncio.ensure_future(closer())
+        await lifecycle.settle(n_items * 40 + 400)
+        if when == 'before-exit':
+            c.exit(RunResult(ret=5), exitcode=0)
+            await lifecycle.settle(n_items * 40 + 400)
+        out: dict = {'n_items': n_items, 'when': when, 'close_returned': tc.done(), 'state': nl.state, 'live': len(sc.world.live()),
+                     'reader_done': tr.done(), 'reader_got': len(got_reader)}
+        if tc.done() and tc.exception() is not None:
+            out['close_raised'] = type(tc.exception()).__name__
+        resume.set()
+        await lifecycle.settle(n_items * 40 + 400)
+        out.update(stalled_done=ts.done(), stalled_got=len(got_stalled))
+        if tc.done():
+            t2 = asyncio.ensure_future(nl.close())
+            await lifecycle.settle()
+            out['second_close_returned'] = t2.done() and t2.exception() is None
+        for t in (ts, tr, tc):
+            t.cancel()
+        return out
+    fakes.install()
+    try:
+        return ctl.run(main, ctl.Fifo())
+    except (Exception, ctl.StepBudgetExceeded) as e:  # noqa
+        return {'n_items': n_items, 'when': when, 'error': f'{type(e).__name__}: {e}'}
+
+
+def stalled_subscriber_oracle(r: dict) -> list[str]:
+    who = (f"a stdout subscriber stopped reading after its first item, {r['n_items']} items were published, close() was called from another task "
+           f"{'while the run was still going' if r['when'] == 'before-exit' else 'after the child had exited'}")
+    if 'error' in r:
+        return [f'{who}: the scenario did not complete ({r["error"]})']
+    m = []
+    if not r['close_returned']:
+        m.append(f"{who}: close() did not return (state {r['state']!r}, {r['live']} live child process(es), the reading subscriber received {r['reader_got']} items)")
+    else:
+        if r.get('close_raised'):
+            m.append(f"{who}: close() raised {r['close_raised']}")
+        if r['state'] != 'closed' or r['live']:
+            m.append(f"{who}: after close() the state is {r['state']!r} with {r['live']} live child process(es)")
+        if not r['reader_done']:
+            m.append(f'{who}: the subscriber that kept reading did not terminate')
+        if not r['stalled_done']:
+            m.append(f'{who}: the stalled subscriber, advanced again after close(), did not terminate')
+        if r.get('second_close_returned') is False:
+            m.append(f'{who}: a second close() did not return quietly')
+    return m
+
+
 def run(chk: common.Check) -> None:
     chk.cov.rule = ('serial histories (as C01) with close() issued at every point of every short history and at random points of long ones, from a '
                     'fresh task each time; subscribers attached before and after start; compared with the Lean model on call results, state, '
@@ -159,4 +254,12 @@ def run(chk: common.Check) -> None:
                 m.append(f"close() returned with the state {r['state']} after a plugin's {hook_name} had raised")
         if m:
             oracle_fail.append(({'close_pending_hook_failure': r}, m, None))
+    for n_items in ((3, 1500) if chk.tier == 'quick' else (3, 300, 1500, 5000)):
+        for when in ('before-exit', 'after-exit'):
+            r = stalled_subscriber_case(n_items, when)
+            chk.cov.case(('stalled-subscriber', n_items, when))
+            chk.cov.count('kinds', 'close-with-a-stalled-subscriber-and-a-large-backlog')
+            m = stalled_subscriber_oracle(r)
+            if m:
+                oracle_fail.append(({'stalled_subscriber': r}, m, None))
     _life.finish(chk, 'C03', oracle_fail, dis, 'close results, state, broker closing')
